@@ -92,7 +92,7 @@ PROACTIVE = {
     'C18': [['c18-upcast']],
     'C16': [['c16-builders'], ['c16-subst'], ['c08-flatten']],
     'C10': [['c10-sanity'], ['c10-resolve'], ['c10-mixed'], ['c10-paths']],
-    'C11': [['c11-contains'], ['c11-validate']],
+    'C11': [['c11-contains'], ['c11-validate'], ['c11-similar']],
     'C12': [['c12-primex', '2000'], ['c12-structure', '2000']],
 }
 
